@@ -110,6 +110,16 @@ func userCalls(c *core.Ctx) []userCall {
 					if fld, owner := an.TerminalField(ia.X); fld != nil && an.IsNamed(owner, testingPkg, "T") {
 						out = append(out, userCall{Call: call, Kind: "cleanup", Fn: fn})
 						direct = true
+					} else if p, isP := an.Strip(ia.X).(*ssa.Parameter); isP && p.Parent() == fn {
+						// … of a list handed to this function: the cleanup stack at some call site
+						for _, site := range an.CallSitesOf(c, fn) {
+							if i := an.ParamIndex(p); i < len(site.Common().Args) {
+								if fld, owner := an.TerminalField(site.Common().Args[i]); fld != nil && an.IsNamed(owner, testingPkg, "T") && !direct {
+									out = append(out, userCall{Call: call, Kind: "cleanup", Fn: fn})
+									direct = true
+								}
+							}
+						}
 					}
 				}
 				if _, viaAccessor := call.Common().Value.(*ssa.Call); viaAccessor && !direct {
